@@ -179,8 +179,6 @@ class MiniEval:
         kwargs = dict(kwargs or {})
         node = fn.node
         a = node.args  # type: ignore[attr-defined]
-        if a.kwarg:
-            raise Unevaluable(f"{fn.qualname}: **kwargs")
         names = [x.arg for x in a.posonlyargs + a.args]
         env: Dict[str, Any] = dict(closure) if closure else {}
         for name in names + [x.arg for x in a.kwonlyargs]:
@@ -208,6 +206,9 @@ class MiniEval:
                     env[name] = Sym(f"default-of-{name}")  # e.g. a typing construct used as marker
             else:
                 raise Unevaluable(f"{fn.qualname}: argument {name} missing")
+        if a.kwarg:
+            env[a.kwarg.arg] = dict(kwargs)
+            kwargs = {}
         if kwargs:
             raise Unevaluable(f"{fn.qualname}: unexpected keyword {list(kwargs)}")
         from .universe import own_nodes
@@ -279,6 +280,11 @@ class MiniEval:
             if not self._yields:
                 raise Unevaluable("yield outside a generator call")
             self._yields[-1].append(self.eval(fn, stmt.value.value, env, depth) if stmt.value.value is not None else None)
+            return
+        if isinstance(stmt, ast.Expr) and isinstance(stmt.value, ast.YieldFrom):
+            if not self._yields:
+                raise Unevaluable("yield outside a generator call")
+            self._yields[-1].extend(self.iterate(self.eval(fn, stmt.value.value, env, depth)))
             return
         if isinstance(stmt, ast.Expr):
             if isinstance(stmt.value, ast.Constant):
@@ -541,6 +547,29 @@ class MiniEval:
             return self.eval(fn, expr.value, env, depth)  # coroutines are evaluated when they are called
         raise Unevaluable(f"expression {type(expr).__name__}")
 
+    def class_attribute(self, cls: ClassInfo, name: str, depth: int) -> Any:
+        """
+        A class-level container (``_REGISTRY: Dict[..] = {}``) as it stands once the module is imported: the value of
+        its class-body assignment, then ``__init_subclass__`` of the owning class applied to every subclass the
+        repository defines, in definition order.  NotImplemented when the attribute is not such a container.
+        """
+        owner = next((k for k in self.ctx.r.mro(cls) if name in k.attrs), None)
+        if owner is None or owner.module.external or not isinstance(owner.attrs[name], (ast.Dict, ast.List, ast.Set, ast.Call)):
+            return NotImplemented
+        store = self.__dict__.setdefault("_class_attrs", {})
+        key = (owner.key, name)
+        if key in store:
+            return store[key]
+        pseudo = FuncInfo(owner.module, f"<class {owner.name}>", ast.FunctionDef(name="<class>", args=ast.arguments(posonlyargs=[], args=[], kwonlyargs=[], kw_defaults=[], defaults=[]), body=[], decorator_list=[], lineno=owner.node.lineno), owner)
+        store[key] = self.eval(pseudo, owner.attrs[name], {}, depth + 1)
+        hook = owner.methods.get("__init_subclass__")
+        if hook is not None:
+            subs = [c for c in self.ctx.u.classes.values() if c.key != owner.key and not c.module.external and self.ctx.r.is_subclass(c, owner)]
+            subs.sort(key=lambda c: (c.module.name != owner.module.name, c.module.name, c.node.lineno))
+            for sub in subs:
+                self.call_function(hook, [ClassRef(sub)], {}, depth + 1)
+        return store[key]
+
     def apply(self, fobj: Any, args: List[Any], depth: int) -> Any:
         if isinstance(fobj, FuncRef):
             lead = [fobj.bound_self] if isinstance(fobj.bound_self, Instance) and fobj.fn.cls is not None else []
@@ -551,8 +580,15 @@ class MiniEval:
             for a, v in zip(lam.args.args, args):
                 inner[a.arg] = v
             return self.eval(self._lambda_fn, lam.body, inner, depth + 1)
-        if fobj in (str, int, bool, len, tuple, list):
-            return fobj(*args)
+        if fobj is bytes and len(args) == 1 and isinstance(args[0], (Instance, Sym, SymBytes)):
+            return SymBytes.of(args[0]) if isinstance(args[0], SymBytes) else SymBytes([args[0]])
+        if fobj in (str, int, bool, len, tuple, list, bytes):
+            if any(isinstance(x, (Sym, Instance, ClassRef, FuncRef)) for x in args):
+                raise Unevaluable(f"{getattr(fobj, '__name__', fobj)}() of an opaque value")
+            try:
+                return fobj(*args)
+            except Exception as exc:  # pylint: disable=broad-except
+                raise Unevaluable(f"{getattr(fobj, '__name__', fobj)}(): {exc}") from exc
         raise Unevaluable("call of an opaque function object")
 
     def itertools_model(self, fn: FuncInfo, name: str, args: List[Any], kwargs: Dict[str, Any], depth: int) -> Any:
@@ -665,6 +701,9 @@ class MiniEval:
                 return FuncRef(meth, bound_self=base)
             if expr.attr == "__name__":
                 return base.cls.name
+            got_attr = self.class_attribute(base.cls, expr.attr, depth)
+            if got_attr is not NotImplemented:
+                return got_attr
             raise Unevaluable(f"class attribute {base.cls.name}.{expr.attr}")
         if isinstance(base, Instance):
             if expr.attr in base.attrs:
@@ -866,7 +905,9 @@ class MiniEval:
             allowed = {
                 dict: ("get", "items", "keys", "values", "setdefault", "update", "pop", "copy"),
                 list: ("append", "extend", "index", "count", "copy", "insert", "pop", "reverse", "sort"),
-                tuple: ("index", "count"), set: ("add", "union", "difference", "intersection", "copy", "discard"),
+                tuple: ("index", "count"),
+                set: ("add", "union", "difference", "intersection", "copy", "discard", "update", "remove", "clear", "issubset", "issuperset", "isdisjoint", "difference_update", "intersection_update", "symmetric_difference", "pop"),
+                frozenset: ("union", "difference", "intersection", "copy", "issubset", "issuperset", "isdisjoint", "symmetric_difference"),
                 str: ("join", "startswith", "endswith", "lstrip", "rstrip", "strip", "split", "encode", "format", "lower", "upper"),
                 bytes: ("join", "startswith", "endswith", "decode", "hex"), int: ("bit_length", "to_bytes"),
             }
